@@ -75,6 +75,11 @@ PlainJoin == /\ peers = 1 /\ peers' = 2
 TrustedLeave == /\ peers = 2 /\ trusted /\ peers' = 1 /\ trusted' = FALSE
                 /\ UNCHANGED <<stored, pruned, foreign, sampled, now, netHead, phase, subj, ongoing, hsub, lastFetch, sawPeer, slowH>>
 
+\* a trusted peer joins while only ordinary ones are connected (needed for a syncer that has not initialised yet)
+TrustedJoin == /\ peers = 1 /\ ~trusted /\ peers' = 2 /\ trusted' = TRUE
+               /\ sawPeer' = (sawPeer \/ phase = "connecting")
+               /\ UNCHANGED <<stored, pruned, foreign, sampled, now, netHead, phase, subj, ongoing, hsub, lastFetch, slowH>>
+
 MarkSampled(h) == /\ h \in stored /\ sampled' = sampled \cup {h}
                   /\ UNCHANGED <<stored, pruned, foreign, now, netHead, peers, trusted, phase, subj, ongoing, hsub, lastFetch, sawPeer, slowH>>
 
@@ -151,7 +156,7 @@ BatchFail ==
     /\ UNCHANGED <<stored, pruned, foreign, sampled, now, netHead, peers, trusted, phase, subj, hsub, lastFetch, sawPeer, slowH>>
 
 Worker == TryInit \/ HeaderSub \/ FetchNext \/ BatchOk
-Env    == \/ NewBlock \/ Connect \/ Disconnect \/ BatchFail \/ PlainJoin \/ TrustedLeave
+Env    == \/ NewBlock \/ Connect \/ Disconnect \/ BatchFail \/ PlainJoin \/ TrustedLeave \/ TrustedJoin
           \/ (EnablePrune /\ \E h \in 1..N : Prune(h))
           \/ (EnablePrune /\ \E h \in 1..N : MarkSampled(h))
           \/ (EnableForeign /\ BatchForeign)
